@@ -181,7 +181,78 @@ func TestC20(t *testing.T) {
 		}
 	}
 	concurrentRefresh(t, r)
+	rotationRepeat(t, r)
 	r.Finish(t)
+}
+
+// rotationRepeat: after a rotation the session reads a record of the previous key generation back (the old keys are
+// loaded next to the current ones) and then repeats encrypts and decrypts that already succeeded: inside the
+// interval they must stay free of external calls.
+func rotationRepeat(t *testing.T, r *ev.Run) {
+	for _, nc := range []namedCfg{{"simple", world.Default(0, 0, 0)}, {"lru100", func() world.Cfg {
+		c := world.Default(0, 0, 0)
+		c.IKPolicy, c.IKCap, c.SKPolicy, c.SKCap = "lru", 100, "slru", 100
+		return c
+	}()}, {"shared-lfu64", func() world.Cfg {
+		c := world.Default(0, 0, 0)
+		c.SharedIK, c.IKPolicy, c.IKCap = true, "lfu", 64
+		return c
+	}()}} {
+		name := "rotation-repeat/" + nc.name
+		journal("c20 " + name)
+		func() {
+			defer func() {
+				if pv := recover(); pv != nil {
+					r.Violation("c20-panic", fmt.Sprintf("scenario %s: %v", name, pv), name)
+				}
+			}()
+			synctest.Test(t, func(t *testing.T) {
+				E, R := time.Hour, 10*time.Minute
+				cfg := nc.cfg
+				cfg.Expire, cfg.Revoke, cfg.Precision = E, R, time.Minute
+				c := &c20{r: r, name: name, cfg: cfg, R: R, lastRead: map[string]time.Time{}, done: map[string]bool{}, kmsSeen: map[[32]byte]time.Time{}}
+				c.w = world.New("memguard")
+				c.w.MS.WhoFn = func() string { return c.scope }
+				defer c.w.Close()
+				time.Sleep(21 * time.Second)
+				ctx := context.Background()
+				pf := c.w.Factory(world.Default(E, R, time.Minute), "svc", "prod")
+				ps, _ := pf.GetSession("part0")
+				oldPl := []byte("old generation payload")
+				oldRec, err := ps.Encrypt(ctx, oldPl)
+				if err != nil {
+					panic(err)
+				}
+				ps.Close()
+				pf.Close()
+				time.Sleep(E + 3*time.Minute) // the first key generation has expired
+
+				f := c.w.Factory(cfg, "svc", "prod")
+				s, _ := f.GetSession("part0")
+				cs := &c20sess{part: "part0", s: s, scope: "session"}
+				if cfg.SharedIK {
+					cs.scope = "factory"
+				}
+				ikid := "_IK_part0_svc_prod"
+				newRec := c.op(cs, nil, "", []byte("x"), ikid) // rotates: new SK and IK
+				c.op(cs, nil, "", []byte("x"), ikid)           // repeat
+				c.op(cs, oldRec, "old", oldPl, ikid)           // loads the previous generation next to the current one
+				for i := 0; i < 4 && !c.failed; i++ {
+					time.Sleep(R / 8)
+					c.op(cs, nil, "", []byte("x"), ikid)
+					c.op(cs, oldRec, "old", oldPl, ikid)
+					if newRec != nil {
+						c.op(cs, newRec, "new", []byte("x"), ikid)
+					}
+				}
+				s.Close()
+				f.Close()
+				synctest.Wait()
+				r.Eval(1)
+				r.Distinct(name)
+			})
+		}()
+	}
 }
 
 // concurrentRefresh: N sessions of one factory all find the shared system key stale at the same moment (every
